@@ -247,6 +247,35 @@ impl C19 {
       acc += n;
     }
     c.eq("pillar", "fetus_direction", pillar_name(p as i64), format!("{} {}", if exp.0 { "内" } else { "外" }, exp.1), format!("{} {}", if fd.get_side() == Side::IN { "内" } else { "外" }, fd.get_direction().get_name()));
+    // the text as the almanacs print it: place (with the three contracted forms and 占 before 门..), then 外 + 正 for a
+    // cardinal direction outside, or 房内 + direction inside (never 正)
+    let place = {
+      let raw = format!("{}{}", ["门", "碓磨", "厨灶", "仓库", "房床"][s % 5], ["碓", "厕", "炉", "门", "栖", "床"][b % 6]);
+      match raw.as_str() {
+        "门门" => "占大门".to_string(),
+        "碓磨碓" => "占碓磨".to_string(),
+        "房床床" => "占房床".to_string(),
+        r if r.starts_with("门") => format!("占{}", r),
+        r => r.to_string(),
+      }
+    };
+    let pos = if exp.0 { format!("房内{}", exp.1) } else if exp.1.chars().count() == 1 { format!("外正{}", exp.1) } else { format!("外{}", exp.1) };
+    c.eq("pillar", "fetus_text", pillar_name(p as i64), format!("{} {}", place, pos), fd.to_string());
+    // the same spirit through the day objects, including a day view taken from an hour view of the 23:00 hour (which already
+    // carries this pillar on the previous civil date)
+    {
+      let cl = crate::model::cal();
+      let base = cl.index(2024, 1, 1).unwrap() as i64;
+      let i = base + (p as i64 - crate::model::day_pillar(cl.jdn(base as usize))).rem_euclid(60);
+      let (yy, mm, dd) = cl.ymd(i as usize);
+      let via_day = SolarDay::from_ymd(yy as isize, mm as usize, dd as usize).get_sixty_cycle_day().get_fetus_day().to_string();
+      c.eq("pillar", "fetus_via_sexagenary_day", format!("{} ({})", cl.fmt(i as usize), pillar_name(p as i64)), fd.to_string(), via_day);
+      let via_lunar = SolarDay::from_ymd(yy as isize, mm as usize, dd as usize).get_lunar_day().get_fetus_day().to_string();
+      c.eq("pillar", "fetus_via_lunar_day", format!("{} ({})", cl.fmt(i as usize), pillar_name(p as i64)), fd.to_string(), via_lunar);
+      let (py, pm, pd) = cl.ymd(i as usize - 1);
+      let hv = tyme4rs::tyme::solar::SolarTime::from_ymd_hms(py as isize, pm as usize, pd as usize, 23, 30, 0).get_sixty_cycle_hour().get_sixty_cycle_day();
+      c.eq("pillar", "fetus_via_day_view_of_a_late_zi_hour", format!("{} 23:30 (day view {})", cl.fmt(i as usize - 1), hv.get_sixty_cycle().get_name()), FetusDay::new(hv.get_sixty_cycle()).to_string(), hv.get_fetus_day().to_string());
+    }
   }
 
   fn eval_misc(&self, env: &Env, out: &mut Out, case: &Case) {
